@@ -22,6 +22,7 @@ import (
 
 type ctxLike interface {
 	Send([]byte) error
+	SendMsg(*mangos.Message) error
 	Recv() ([]byte, error)
 	SetOption(string, interface{}) error
 	Close() error
